@@ -122,3 +122,23 @@ Definition expected_rate (labels ids : list Z) (bin dur : Q) : list (list Q) :=
   map (fun x => map (fun y => (inject_Z (n_spikes labels x * n_spikes labels y) * (bin / dur))%Q) ids) ids.
 Definition rate_b (labels ids : list Z) (bin dur : Q) (R : list (list Q)) : bool :=
   list_eqb (list_eqb Qeq_bool) R (expected_rate labels ids bin dur).
+
+(* ================= the exact-arithmetic regime of the parameter layer =================
+   (stage 3) The boolean Corr.v evaluates on the ABSTRACT input of every correlograms case (code 3 when
+   false) and the hypothesis of C15_params: sample_rate, bin_size, window_size dyadic with small numerators,
+   2^-12 <= bin, window <= 2^12 (np.clip is the identity), every spike time  s / rate  a float64 and every
+   sample below 2^50 ("sample rates for which time*rate is exact"). *)
+Definition is_pow2 (p : positive) : bool := Z.pos p =? 2 ^ Z.log2 (Z.pos p).
+(* dyadic, numerator below 2^nb, denominator at most 2^db *)
+Definition dyadic (nb db : Z) (x : Q) : bool :=
+  let r := Qred x in
+  is_pow2 (Qden r) && (Z.abs (Qnum r) <? 2 ^ nb) && (Z.pos (Qden r) <=? 2 ^ db).
+Definition in_range (lo hi x : Q) : bool := Qle_bool lo x && Qle_bool x hi.
+(* a float64 with unbounded-enough exponent: 53-bit numerator, power-of-two denominator up to 2^900 *)
+Definition exact_f64 (x : Q) : bool := dyadic 53 900 x.
+
+Definition params_regime (t : list Z) (rate bin win : Q) : bool :=
+  forallb (fun s => (Z.abs s <? 2 ^ 50) && exact_f64 (inject_Z s / rate)) t &&
+  negb (Qle_bool rate 0) && dyadic 20 12 rate &&
+  dyadic 13 12 bin && in_range (1 # 4096) (4096 # 1) bin &&
+  dyadic 13 12 win && in_range (1 # 4096) (4096 # 1) win.
